@@ -263,7 +263,13 @@ def validate_case(rec, pvl, paths, fids, kinds):
     except common.CaseTimeout:
         rec.inconc("CPU budget exceeded computing the expectation")
         return
-    got = run_tool(pv.main, list(paths))
+    # the verbosity flags only add diagnostics on stderr: same report
+    flags = ([], ["-v"], ["-vv"])[int(common.h64(("v", tuple(fids))), 16) % 3]
+    rec.count("validate_flags[" + (" ".join(flags) or "none") + "]")
+    got = run_tool(pv.main, flags + list(paths))
+    if flags and got[0] == "ok" and got[1].startswith("pvl library version:"):
+        # with -v the report is preceded by the library version
+        got = (got[0], got[1].split("\n", 1)[1] if "\n" in got[1] else "") + tuple(got[2:])
     rec.case((tuple(fids), "validate"), True)
     rec.count("validate_runs[single]" if len(paths) == 1 else "validate_runs[many]")
     wit = {"files": fids, "kinds": kinds}
